@@ -227,6 +227,14 @@ OVERRIDES = {
          "Level therefore exploration."),
    note="Known finding KF05 (piecewise-parsed schemas keep bare references) is excluded by predicate. Data values have no object identity in the logic.",
    technique="bounded differential checking of the three schema forms; contract-based deductive verification of the already-parsed path"),
+ "C20": dict(cat="exploration", design="0.3, 0.12, 7/C20",
+   text=("Bounded stand-in (labelled bounded, never counted as proved): counts, validation, binary and container round trip of generated "
+         "values over seeded random states for curated, small, logical-type and non-record schemas. Deductive piece only: for schemas "
+         "built from primitives, fixed, enum, non-empty unions and references to these, gen_data returns a value that validates (VALID) "
+         "whatever the random source returns within its documented ranges (random.* as assumed externals: ranges and kinds only). "
+         "Arrays, maps and records are not under contract. Level therefore exploration."),
+   note="Known finding KF20 (no termination for a type that contains itself through an array or map) is excluded by predicate.",
+   technique="bounded run-time checking of generated values; contract-based deductive verification of the leaf cases of the generator"),
  "C13": dict(cat="other", design="0.3, 0.10, 7/C13",
    text=("Deductive: _to_parsing_canonical_form (the recursive writer behind to_parsing_canonical_form) appends exactly PCF(schema) "
          "for every parsed schema -- PCF being the Avro specification's transformation written as specification functions "
